@@ -24,7 +24,8 @@ RULE = ('cells = place (run/$/% instruction in each phase; -stdout-from in file/
         'run; text-matcher run; file-matcher run; exit-code/stdout/stderr -from; act with % / $ / executable file / '
         '-python / @SYM / file interpreter / source interpreter) x child (sleeps 40 s; sleeps 40 s ignoring SIGTERM; '
         '2 s; 2.5 s; 0.2 s) x timeout history (=1 earlier in phase; =1 in earlier phase; =1 then changed after the '
-        'use; =30 before and =1 after the use; =1 then none before the use; default) x context (other settings '
+        'use; =30 before and =1 after the use; =1 then none before the use; default; =0; for the stdin program, '
+        'which is started with the action: =1 / =none given after the stdin instruction) x context (other settings '
         'made in [setup] that travel in the same process-execution settings as the timeout: env without / with '
         '-of act / -of !act, before or after the timeout instruction, env unset, cd, stdin - combined with the '
         'must-fire schedules and the lifted one). quick: a seeded sample of the cells (every act place x every '
@@ -73,8 +74,11 @@ PLACES = {
 SCHEDULES = [
     ('long', 'h1_same_phase'), ('long', 'h2_earlier_phase'), ('long', 'h3_changed_after'),
     ('long_ignore_term', 'h1_same_phase'), ('2s', 'h4_30_before_1_after'), ('2.5s', 'h5_none'),
-    ('0.2s', 'h6_default'),
+    ('0.2s', 'h6_default'), ('long', 'h7_zero'),
 ]
+# the program behind `stdin = -stdout-from P` is started when the action starts: the timeout in force then is
+# the value [setup] ends with
+STDIN_SCHEDULES = [('long', 'hs1_timeout_after_stdin'), ('2.5s', 'hs2_none_after_stdin')]
 # other settings made in [setup]: (lines at the start of [setup], lines at the end of [setup])
 CONTEXTS = {
     'env': (['env C19_A = 1'], []),
@@ -103,6 +107,8 @@ def all_cells():
                     # instruction is therefore ambiguous and not part of the domain
                     continue
                 yield {'place': place, 'phase': ph, 'child': child, 'history': hist}
+    for child, hist in STDIN_SCHEDULES:
+        yield {'place': 'stdin-stdout-from', 'phase': 'setup', 'child': child, 'history': hist}
     for place in sorted(PLACES):
         phases, _ = PLACES[place]
         for ph in phases:
@@ -157,6 +163,13 @@ def build(cell):
         use(['timeout = none'], [])
     elif hist == 'h6_default':
         use([], [])
+    elif hist == 'h7_zero':
+        use(['timeout = 0'], [])
+        p['cleanup'].insert(0, 'timeout = 30')  # the marker of [cleanup] is written by a process, too
+    elif hist == 'hs1_timeout_after_stdin':
+        use([], ['timeout = 1'])
+    elif hist == 'hs2_none_after_stdin':
+        use(['timeout = 1'], ['timeout = none'])
     if cell.get('ctx'):
         first, last = CONTEXTS[cell['ctx']]
         p['setup'] = list(first) + p['setup'] + list(last)
@@ -246,7 +259,7 @@ def check(cell) -> Verdict:
     if o['exception']:
         return bad('exception-escaped')
     must_fire = cell['child'] in ('long', 'long_ignore_term', '61s-default')
-    limit = 60 if cell['child'] == '61s-default' else 1
+    limit = 60 if cell['child'] == '61s-default' else (0 if cell['history'] == 'h7_zero' else 1)
     if must_fire:
         if o['timed_out'] or o['elapsed'] >= (limit + 29 if limit == 1 else 74):
             return bad('waited-for-the-child')
@@ -276,8 +289,7 @@ def check(cell) -> Verdict:
             # possibly scheduling noise: must reproduce twice to count
             again = [run_cell(cell, subproc) for _ in range(2)]
             if all(a['ident'] == 'HARD_ERROR' and 'timed out' in a['err'] for a in again):
-                if cell['history'] == 'h6_default' or cell['history'] == 'h4_30_before_1_after' or \
-                        cell['history'] == 'h5_none':
+                if cell['history'] in ('h6_default', 'h4_30_before_1_after', 'h5_none', 'hs2_none_after_stdin'):
                     return bad('timeout-fired-although-not-in-force')
             return Verdict(inconclusive=True, labels=labels + ['noise'], nontrivial=True, key=key)
         return bad('short-child-not-pass')
@@ -302,6 +314,8 @@ def enum_cells(tier):
                 # every act place x every context with the must-fire schedule, and a seeded 1/7 of the rest
                 if (c['phase'] == 'act' and c['history'] == 'h1_same_phase') or h == 0:
                     picked.append(c)
+            elif c['history'].startswith('hs') or (c['history'] == 'h7_zero' and (c['phase'] == 'act' or h < 2)):
+                picked.append(c)
             elif h < 3 or (c['history'] == 'h1_same_phase' and c['child'] == 'long'
                            and (c['phase'] in ('act', 'assert', 'setup') or h < 3)):
                 picked.append(c)
